@@ -264,7 +264,9 @@ impl LineIndex {
             return None;
         }
 
-        let offset = self.line_start(line)? + column - 1;
+        // `column` is caller-supplied and unbounded: a huge column must read as
+        // "past the end" (None), not overflow the addition.
+        let offset = self.line_start(line)?.checked_add(column - 1)?;
         if offset < self.text_len {
             Some(offset)
         } else {
